@@ -1,18 +1,399 @@
-//! C18 — not built yet (stub).
+//! C18 — date serial numbers and calendar dates convert exactly in both directions (complete domain).
+//!
+//! Spaces
+//!   days      one pool case per calendar year 1900..=9999: every day of the year x TIMES (5 times of day)
+//!             through convert_date / convert_date_windows_1900 / excel_to_date_time_object
+//!   seconds   every second of the representative days (one pool case per day and hour)
+//!   display   Cell::get_formatted_value / Worksheet::get_formatted_value with date formats
+//! Oracle: own proleptic-Gregorian day count (days-from-civil) + own month-length table; nothing of chrono
+//! is used except the Display form of the NaiveDateTime the library returns.
 use crate::common::*;
+use crate::e1::*;
 use crate::pool::*;
-use serde_json::Value;
+use serde_json::{json, Value};
+use umya_spreadsheet::helper::date::{convert_date, convert_date_windows_1900, excel_to_date_time_object};
+use umya_spreadsheet::helper::number_format::to_formatted_string;
 
 pub fn entry() -> crate::Entry {
     crate::Entry { id: "C18", run, space, replay }
 }
-pub fn space(_tier: Tier, _id: &str) -> Option<Box<dyn Space>> {
-    None
+
+const Y0: i32 = 1900;
+const Y1: i32 = 9999;
+/// times of day checked for every day (seconds since midnight)
+const TIMES: [u32; 5] = [0, 1, 43199, 43200, 86399];
+/// days of which every second is checked
+const SECOND_DAYS: [(i32, u32, u32); 8] = [(1900, 1, 1), (1900, 2, 28), (1900, 3, 1), (1999, 12, 31), (2000, 2, 29), (2024, 12, 31), (2100, 2, 28), (9999, 12, 31)];
+const MAIN_FMT: &str = "yyyy-mm-dd hh:mm:ss";
+const MONTH_ABBR: [&str; 12] = ["Jan", "Feb", "Mar", "Apr", "May", "Jun", "Jul", "Aug", "Sep", "Oct", "Nov", "Dec"];
+/// secondary date formats (rendered by `render`)
+const EXTRA_FMTS: [&str; 5] = ["yyyy-mm-dd", "dd/mm/yyyy", "m/d/yyyy", "m/d/yyyy h:mm", "d-mmm-yy"];
+
+// ------------------------------------------------------------------------------------------------
+// independent calendar
+fn is_leap(y: i32) -> bool {
+    (y % 4 == 0 && y % 100 != 0) || y % 400 == 0
 }
-fn replay(_tier: Tier, _case: &Value) -> Vec<Violation> {
-    vec![]
+fn month_len(y: i32, m: u32) -> u32 {
+    match m {
+        1 | 3 | 5 | 7 | 8 | 10 | 12 => 31,
+        4 | 6 | 9 | 11 => 30,
+        _ => {
+            if is_leap(y) {
+                29
+            } else {
+                28
+            }
+        }
+    }
 }
-fn run(_ctx: &Ctx) -> i32 {
-    eprintln!("MACHINERY: C18 is not built yet");
-    2
+/// days since 1970-01-01 of a proleptic Gregorian date (H. Hinnant's days_from_civil)
+fn days_from_civil(y: i32, m: u32, d: u32) -> i64 {
+    let y = if m <= 2 { y as i64 - 1 } else { y as i64 };
+    let era = if y >= 0 { y } else { y - 399 } / 400;
+    let yoe = y - era * 400;
+    let mp = (m as i64 + 9) % 12;
+    let doy = (153 * mp + 2) / 5 + d as i64 - 1;
+    let doe = yoe * 365 + yoe / 4 - yoe / 100 + doy;
+    era * 146097 + doe - 719468
+}
+/// the 1900 date system: day count from 1899-12-30 from 1900-03-01 on, one less before (phantom 1900-02-29)
+fn serial_day(y: i32, m: u32, d: u32) -> i64 {
+    let n = days_from_civil(y, m, d) - days_from_civil(1899, 12, 30);
+    if (y, m) < (1900, 3) {
+        n - 1
+    } else {
+        n
+    }
+}
+fn want_serial(day: i64, secs: u32) -> f64 {
+    day as f64 + secs as f64 / 86400.0
+}
+fn stamp(y: i32, m: u32, d: u32, secs: u32) -> String {
+    format!("{:04}-{:02}-{:02} {:02}:{:02}:{:02}", y, m, d, secs / 3600, secs / 60 % 60, secs % 60)
+}
+fn render(fmt: &str, y: i32, m: u32, d: u32, secs: u32) -> String {
+    let (h, mi) = (secs / 3600, secs / 60 % 60);
+    match fmt {
+        "yyyy-mm-dd" => format!("{:04}-{:02}-{:02}", y, m, d),
+        "dd/mm/yyyy" => format!("{:02}/{:02}/{:04}", d, m, y),
+        "m/d/yyyy" => format!("{}/{}/{:04}", m, d, y),
+        "m/d/yyyy h:mm" => format!("{}/{}/{:04} {}:{:02}", m, d, y, h, mi),
+        "d-mmm-yy" => format!("{}-{}-{:02}", d, MONTH_ABBR[(m - 1) as usize], y % 100),
+        _ => stamp(y, m, d, secs),
+    }
+}
+
+fn guarded<T, F: FnOnce() -> T + std::panic::UnwindSafe>(f: F) -> Result<T, String> {
+    std::panic::catch_unwind(f).map_err(|e| panic_msg(&e))
+}
+
+fn date_tags(y: i32, m: u32, d: u32) -> Vec<&'static str> {
+    let mut t = vec![];
+    if (y, m) < (1900, 3) {
+        t.push("before-1900-03-01");
+    }
+    if m == 2 && d == 29 {
+        t.push("leap-day");
+    }
+    if y % 100 == 0 {
+        t.push("century-year");
+    }
+    if (m == 12 && d == 31) || (m == 1 && d == 1) {
+        t.push("year-boundary");
+    }
+    if t.is_empty() {
+        t.push("ordinary-date");
+    }
+    t
+}
+
+/// One (date, time) evaluation of the conversion clauses.  `prev` carries the previous serial of the
+/// enumeration (strict monotonicity).
+fn check_point(sink: &mut Sink, y: i32, m: u32, d: u32, secs: u32, prev: &mut Option<f64>, hash_it: bool) {
+    sink.evaluations += 1;
+    let day = serial_day(y, m, d);
+    let want = want_serial(day, secs);
+    let want_text = stamp(y, m, d, secs);
+    let (h, mi, s) = ((secs / 3600) as i32, (secs / 60 % 60) as i32, (secs % 60) as i32);
+    let case = || json!({"kind":"date-time","y":y,"m":m,"d":d,"h":h,"min":mi,"s":s});
+    let tags = date_tags(y, m, d);
+    // (1) date -> serial
+    let r = guarded(move || (convert_date(y, m as i32, d as i32, h, mi, s), convert_date_windows_1900(y, m as i32, d as i32, h, mi, s)));
+    let mut got_serial = None;
+    match r {
+        Err(msg) => sink.violations.push(Violation::new("to-serial", &format!("panic:{}", panic_class(&msg)), &tags, case(), msg)),
+        Ok((a, b)) => {
+            got_serial = Some(a);
+            if a.to_bits() != b.to_bits() {
+                sink.violations.push(Violation::new("to-serial", "convert_date-differs-from-windows_1900", &tags, case(), format!("convert_date={} convert_date_windows_1900={}", a, b)));
+            }
+            // the value defined by the date system: whole part = day number, fraction = secs/86400
+            // (tolerance 1 ms, far above the 4e-5 s resolution of an f64 near 3e6 and far below one second)
+            let whole_ok = a.floor() == day as f64;
+            let frac_ok = ((a - day as f64) * 86400.0 - secs as f64).abs() < 1e-3;
+            if !whole_ok || !frac_ok || (secs == 0 && a != day as f64) {
+                let sym = if !whole_ok {
+                    let delta = a.floor() - day as f64;
+                    if delta == 1.0 {
+                        "day-number+1"
+                    } else if delta == -1.0 {
+                        "day-number-1"
+                    } else {
+                        "day-number-wrong"
+                    }
+                } else {
+                    "time-fraction-wrong"
+                };
+                sink.violations.push(Violation::new("to-serial", sym, &tags, case(), format!("{} -> serial {} ; the 1900 date system defines {}", want_text, a, want)));
+            }
+            // (3) strictly increasing in time
+            if let Some(p) = *prev {
+                if !(a > p) {
+                    sink.violations.push(Violation::new("monotone", "serial-not-increasing", &tags, case(), format!("{} -> {} but the previous instant of the enumeration gave {}", want_text, a, p)));
+                }
+            }
+            *prev = Some(a);
+        }
+    }
+    // (2) serial -> date-time, from the reference serial and (when it differs) from the library's own serial
+    let decode = |serial: f64, clause: &str, sink: &mut Sink| {
+        let r = guarded(move || excel_to_date_time_object(&serial, None).to_string());
+        match r {
+            Err(msg) => sink.violations.push(Violation::new(clause, &format!("panic:{}", panic_class(&msg)), &tags, case(), format!("excel_to_date_time_object({}) panicked: {}", serial, msg))),
+            Ok(text) => {
+                if hash_it {
+                    sink.obs(&text);
+                }
+                if text != want_text {
+                    let sym = if text.get(0..10) != want_text.get(0..10) { "date-differs" } else { "time-differs" };
+                    sink.violations.push(Violation::new(clause, sym, &tags, case(), format!("excel_to_date_time_object({}) = {:?}, expected {:?}", serial, text, want_text)));
+                }
+            }
+        }
+    };
+    decode(want, "from-serial", sink);
+    if let Some(a) = got_serial {
+        if a.to_bits() != want.to_bits() {
+            decode(a, "roundtrip", sink);
+        }
+    }
+}
+
+// ------------------------------------------------------------------------------------------------
+struct Days;
+impl Space for Days {
+    fn len(&self) -> u64 {
+        (Y1 - Y0 + 1) as u64
+    }
+    fn describe(&self, i: u64) -> Value {
+        json!({"kind":"year","year": Y0 + i as i32, "times_of_day_s": TIMES})
+    }
+    fn run(&self, i: u64, sink: &mut Sink) {
+        let y = Y0 + i as i32;
+        // previous instant: last second of the previous year (none for 1900)
+        let mut prev = if y > Y0 { guarded(move || convert_date(y - 1, 12, 31, 23, 59, 59)).ok() } else { None };
+        let mut expect_day = serial_day(y, 1, 1);
+        for m in 1..=12u32 {
+            for d in 1..=month_len(y, m) {
+                // the reference day numbers themselves are consecutive (self-check of the oracle, except the
+                // phantom 1900-02-29 which has a number but no date)
+                let sd = serial_day(y, m, d);
+                if sd != expect_day {
+                    if (y, m, d) == (1900, 3, 1) && sd == expect_day + 1 {
+                    } else {
+                        panic!("oracle self-check failed at {}-{}-{}", y, m, d);
+                    }
+                }
+                expect_day = sd + 1;
+                for (k, &secs) in TIMES.iter().enumerate() {
+                    check_point(sink, y, m, d, secs, &mut prev, k == 3);
+                }
+            }
+        }
+    }
+}
+
+struct Seconds;
+impl Space for Seconds {
+    fn len(&self) -> u64 {
+        SECOND_DAYS.len() as u64 * 24
+    }
+    fn describe(&self, i: u64) -> Value {
+        let (y, m, d) = SECOND_DAYS[(i / 24) as usize];
+        json!({"kind":"every-second-of-hour","y":y,"m":m,"d":d,"hour": i % 24})
+    }
+    fn run(&self, i: u64, sink: &mut Sink) {
+        let (y, m, d) = SECOND_DAYS[(i / 24) as usize];
+        let hour = (i % 24) as u32;
+        let mut prev = None;
+        if hour > 0 {
+            let hh = hour as i32 - 1;
+            prev = guarded(move || convert_date(y, m as i32, d as i32, hh, 59, 59)).ok();
+        }
+        for secs in hour * 3600..(hour + 1) * 3600 {
+            check_point(sink, y, m, d, secs, &mut prev, true);
+        }
+    }
+}
+
+// ------------------------------------------------------------------------------------------------
+/// Display clause.  One pool case per year.
+struct Display {
+    thorough: bool,
+}
+fn full_year(y: i32) -> bool {
+    [1900, 1901, 1904, 1999, 2000, 2024, 2100, 9999].contains(&y)
+}
+fn boundary_year(y: i32) -> bool {
+    y <= 1904 || y >= 9996 || y % 100 == 0 || y % 100 == 99 || (1996..=2004).contains(&y) || (2023..=2025).contains(&y)
+}
+impl Display {
+    /// which days of year `y` are displayed with MAIN_FMT, and at which time
+    fn main_days(&self, y: i32, m: u32, d: u32, ordinal: i64) -> bool {
+        let year_edge = (m == 1 && d == 1) || (m == 2 && d >= 28) || (m == 3 && d == 1) || (m == 12 && d == 31);
+        self.thorough || full_year(y) || year_edge || ordinal % 97 == 0
+    }
+    fn extra_days(&self, y: i32, m: u32, d: u32) -> bool {
+        let edge = d == 1 || d == month_len(y, m) || (m == 2 && d >= 28);
+        if self.thorough {
+            edge || boundary_year(y)
+        } else {
+            edge && (full_year(y) || y % 400 == 0 || y % 1000 == 999)
+        }
+    }
+}
+/// (one formatting call costs ~1 ms in the library, so the three entry points are compared on a subset)
+fn show_cell(serial: f64, fmt: &str, all_paths: bool) -> Result<(String, String, String), String> {
+    let f = fmt.to_string();
+    guarded(move || {
+        let mut ws = umya_spreadsheet::Worksheet::default();
+        {
+            let c = ws.get_cell_mut((2, 3));
+            c.set_value_number(serial);
+            c.get_style_mut().get_number_format_mut().set_format_code(f.clone());
+        }
+        let via_sheet = ws.get_formatted_value((2, 3));
+        if !all_paths {
+            return (via_sheet.clone(), via_sheet.clone(), via_sheet);
+        }
+        let via_cell = ws.get_cell((2, 3)).map(|c| c.get_formatted_value()).unwrap_or_default();
+        let via_helper = to_formatted_string(&serial.to_string(), &f);
+        (via_sheet, via_cell, via_helper)
+    })
+}
+fn check_display(sink: &mut Sink, y: i32, m: u32, d: u32, secs: u32, fmt: &'static str) {
+    sink.evaluations += 1;
+    let all_paths = (serial_day(y, m, d) + secs as i64) % 16 == 0;
+    let serial = want_serial(serial_day(y, m, d), secs);
+    let want = render(fmt, y, m, d, secs);
+    let case = json!({"kind":"display","y":y,"m":m,"d":d,"secs":secs,"serial":serial,"format":fmt});
+    let mut tags = date_tags(y, m, d);
+    tags.push(if fmt == MAIN_FMT { "fmt-main" } else { "fmt-extra" });
+    match show_cell(serial, fmt, all_paths) {
+        Err(msg) => sink.violations.push(Violation::new("display", &format!("panic:{}", panic_class(&msg)), &tags, case, msg)),
+        Ok((a, b, c)) => {
+            sink.obs(&a);
+            if a != want {
+                let sym = if a.len() == want.len() { "wrong-date-text" } else { "wrong-shape" };
+                sink.violations.push(Violation::new("display", sym, &tags, case.clone(), format!("serial {} with format {:?} displays {:?}, expected {:?}", serial, fmt, a, want)));
+            }
+            if b != a || c != a {
+                sink.violations.push(Violation::new("display", "entry-points-disagree", &tags, case, format!("Worksheet::get_formatted_value={:?} Cell::get_formatted_value={:?} to_formatted_string={:?}", a, b, c)));
+            }
+        }
+    }
+}
+impl Space for Display {
+    fn len(&self) -> u64 {
+        (Y1 - Y0 + 1) as u64 + SECOND_DAYS.len() as u64 * 24
+    }
+    fn describe(&self, i: u64) -> Value {
+        let ny = (Y1 - Y0 + 1) as u64;
+        if i < ny {
+            json!({"kind":"display-year","year": Y0 + i as i32, "main_format": MAIN_FMT, "extra_formats": EXTRA_FMTS})
+        } else {
+            let j = i - ny;
+            let (y, m, d) = SECOND_DAYS[(j / 24) as usize];
+            json!({"kind":"display-every-second-of-hour","y":y,"m":m,"d":d,"hour": j % 24, "format": MAIN_FMT})
+        }
+    }
+    fn run(&self, i: u64, sink: &mut Sink) {
+        let ny = (Y1 - Y0 + 1) as u64;
+        if i >= ny {
+            let j = i - ny;
+            let (y, m, d) = SECOND_DAYS[(j / 24) as usize];
+            let hour = (j % 24) as u32;
+            // thorough: every second; quick: every second of the first and last minute of the hour + every 61st second
+            for secs in hour * 3600..(hour + 1) * 3600 {
+                let k = secs % 3600;
+                if self.thorough || k < 2 || k >= 3598 || k % 601 == 0 {
+                    check_display(sink, y, m, d, secs, MAIN_FMT);
+                }
+            }
+            return;
+        }
+        let y = Y0 + i as i32;
+        let mut ordinal = serial_day(y, 1, 1);
+        for m in 1..=12u32 {
+            for d in 1..=month_len(y, m) {
+                if self.main_days(y, m, d, ordinal) {
+                    // the time of day rotates through TIMES with the day number
+                    let secs = TIMES[(ordinal % 5) as usize];
+                    check_display(sink, y, m, d, secs, MAIN_FMT);
+                }
+                if self.extra_days(y, m, d) {
+                    for f in EXTRA_FMTS {
+                        check_display(sink, y, m, d, TIMES[((ordinal + 2) % 5) as usize], f);
+                    }
+                }
+                ordinal += 1;
+            }
+        }
+    }
+}
+
+// ------------------------------------------------------------------------------------------------
+pub fn space(tier: Tier, id: &str) -> Option<Box<dyn Space>> {
+    match id {
+        "days" => Some(Box::new(Days)),
+        "seconds" => Some(Box::new(Seconds)),
+        "display" => Some(Box::new(Display { thorough: tier == Tier::Thorough })),
+        _ => None,
+    }
+}
+
+fn replay(tier: Tier, case: &Value) -> Vec<Violation> {
+    replay_e1(space(tier, case["_space"].as_str().unwrap_or("")), case)
+}
+
+fn run(ctx: &Ctx) -> i32 {
+    let ids = ["days", "seconds", "display"];
+    let spaces = ids.iter().map(|id| (*id, space(ctx.tier, id).unwrap())).collect();
+    let thorough = ctx.tier == Tier::Thorough;
+    let total_days = days_from_civil(9999, 12, 31) - days_from_civil(1900, 1, 1) + 1;
+    run_e1(
+        ctx,
+        E1Spec {
+            spaces,
+            cfg: PoolCfg { chunk: 8, case_timeout: std::time::Duration::from_secs(120), ..Default::default() },
+            level: "exploration",
+            rule: "complete enumeration of the 1900 date system's calendar: every day 1900-01-01..9999-12-31 (one pool case per year, days generated by the harness's own leap-year rule and month table) x 5 times of day, and every second of 8 representative days. Per instant: convert_date and convert_date_windows_1900 must give whole part = own days-from-civil count since 1899-12-30 (minus 1 before 1900-03-01) and fraction = secs/86400 within 1 ms; excel_to_date_time_object of the reference serial (and of the library's serial when it differs bitwise) must print the same y-m-d h:m:s; serials strictly increase along the enumeration (year cases are linked through the last second of the previous year). Display: a numeric cell holding the reference serial with a date format must show the date through Worksheet::get_formatted_value, Cell::get_formatted_value and to_formatted_string. distinct_nontrivial = distinct date-time strings returned by the library (per day the 12:00:00 decode; every decode of the every-second days; every displayed string)".into(),
+            alphabets: json!({"days": total_days, "times_of_day_s": TIMES, "every_second_days": SECOND_DAYS.iter().map(|(y,m,d)| format!("{:04}-{:02}-{:02}", y, m, d)).collect::<Vec<_>>(), "main_format": MAIN_FMT, "extra_formats": EXTRA_FMTS}),
+            bounds: json!({
+                "conversion": "all days x 5 times + 8 x 86400 seconds (both tiers)",
+                "display_main_format": if thorough {"every day (time of day rotating through the 5 times with the day number) + every second of the 8 representative days"} else {"every day of the years 1900,1901,1904,1999,2000,2024,2100,9999; Jan 1, Feb 28/29, Mar 1, Dec 31 of every year; every 97th day; time rotating through the 5 times; representative days: first/last 2 seconds of each hour + every 601st second (one formatting call costs ~1 ms)"},
+                "display_extra_formats": if thorough {"first/last day of every month and Feb 28/29 of every year, every day of boundary years (<=1904, >=9996, yy in {00,99}, 1996..2004, 2023..2025)"} else {"first/last day of every month and Feb 28/29 of the 8 full years, every 400th year and years ..999"}, "display_entry_points": "Worksheet::get_formatted_value always; Cell::get_formatted_value and to_formatted_string compared on every 16th evaluation"
+            }),
+            exhaustive: true,
+            caps_hit: vec![],
+            assumptions: vec![
+                "serial 60 (the phantom 1900-02-29) and serials below 1 are not calendar dates of the statement and are not evaluated".into(),
+                "1904 date system (convert_date_mac_1904) is outside the statement".into(),
+                "the serial's fraction is compared with a 1 ms tolerance (an f64 near 3e6 resolves 4e-5 s); whole days must be exact".into(),
+                "display is checked for the formats yyyy-mm-dd hh:mm:ss, yyyy-mm-dd, dd/mm/yyyy, m/d/yyyy, m/d/yyyy h:mm, d-mmm-yy (English month abbreviations); AM/PM, weekday and era formats are not pinned by the statement".into(),
+            ],
+            min_distinct: 1_000_000,
+        },
+    )
 }
